@@ -88,6 +88,35 @@ Theorem C18_crypt2_headless_rejects_wrong_length : forall b h, (length b < 343)%
   crypt2_from_headless b h = RErr ErrInvalidSourceLength.
 Proof. exact crypt2_headless_rejects. Qed.
 
+(* ---- receivers that are not fresh (reused after another message, or pre-filled with lastDigest as the matcher does):
+        acceptance, the error and every assigned field do not depend on the previous state; the fields FromBytes* does not
+        assign keep it; the laws hold for every previous state ---- *)
+Theorem C18_auth_any_receiver_rejects_wrong_length : forall dg0 b h m d, auth_from_headless_st dg0 b h = ROk (m, d) ->
+  (37 <= length b <= 85)%nat /\ size_ok (length b - 21) = true /\ length (a_hmac m) = (length b - 21)%nat /\ d = dg0.
+Proof. exact auth_st_rejects_wrong_length. Qed.
+Theorem C18_auth_any_receiver_frombytes_rejects_wrong_length : forall dg0 b m d, auth_from_bytes_st dg0 b = ROk (m, d) ->
+  auth_len_ok (length b) /\ d = dg0.
+Proof. exact auth_st_bytes_rejects_wrong_length. Qed.
+Theorem C18_auth_any_receiver_to_from : forall dg0 b h m d, auth_from_headless_st dg0 b h = ROk (m, d) -> auth_to_bytes m = header_to_bytes h ++ b.
+Proof. exact auth_st_to_from. Qed.
+Theorem C18_auth_receiver_state_irrelevant : forall dg1 dg2 b h,
+  match auth_from_headless_st dg1 b h, auth_from_headless_st dg2 b h with
+  | ROk (m1, _), ROk (m2, _) => m1 = m2 | RErr e1, RErr e2 => e1 = e2 | RPanic, RPanic => True | _, _ => False end.
+Proof. exact auth_st_indep. Qed.
+Theorem C18_crypt_any_receiver_rejects_wrong_length : forall p0 q0 b h, length b <> 53%nat ->
+  crypt_from_headless_st p0 q0 b h = RErr ErrInvalidSourceLength.
+Proof. exact crypt_st_rejects_wrong_length. Qed.
+Theorem C18_crypt_any_receiver_frombytes_rejects_wrong_length : forall p0 q0 b, length b <> 54%nat ->
+  crypt_from_bytes_st p0 q0 b = RErr ErrInvalidSourceLength.
+Proof. exact crypt_st_bytes_rejects_wrong_length. Qed.
+Theorem C18_crypt_any_receiver_to_from : forall p0 q0 b h m, crypt_from_headless_st p0 q0 b h = ROk m -> crypt_to_bytes m = header_to_bytes h ++ b.
+Proof. exact crypt_st_to_from. Qed.
+Theorem C18_crypt2_any_receiver_rejects_wrong_length : forall p0 q0 b h, (length b < 343)%nat \/ (1077 < length b)%nat ->
+  crypt2_from_headless_st p0 q0 b h = RErr ErrInvalidSourceLength.
+Proof. exact crypt2_st_rejects_wrong_length. Qed.
+Theorem C18_crypt2_any_receiver_to_from : forall p0 q0 b h m, crypt2_from_headless_st p0 q0 b h = ROk m -> crypt2_to_bytes m = header_to_bytes h ++ b.
+Proof. exact crypt2_st_to_from. Qed.
+
 (* ---- non-vacuity: concrete well-formed values round-trip, concrete wrong lengths are rejected ---- *)
 Definition ex_hdr := {| opcode := 7; keyid := 0 |}.
 Definition ex_plain := {| p_hdr := ex_hdr; p_sid := 9452287970026068; p_prev := 0; p_pid := 0 |}.
@@ -127,4 +156,13 @@ Print Assumptions C18_crypt2_from_to.
 Print Assumptions C18_crypt2_rejects_wrong_length.
 Print Assumptions C18_crypt2_headless_to_from.
 Print Assumptions C18_crypt2_headless_rejects_wrong_length.
+Print Assumptions C18_auth_any_receiver_rejects_wrong_length.
+Print Assumptions C18_auth_any_receiver_frombytes_rejects_wrong_length.
+Print Assumptions C18_auth_any_receiver_to_from.
+Print Assumptions C18_auth_receiver_state_irrelevant.
+Print Assumptions C18_crypt_any_receiver_rejects_wrong_length.
+Print Assumptions C18_crypt_any_receiver_frombytes_rejects_wrong_length.
+Print Assumptions C18_crypt_any_receiver_to_from.
+Print Assumptions C18_crypt2_any_receiver_rejects_wrong_length.
+Print Assumptions C18_crypt2_any_receiver_to_from.
 Print Assumptions C18_openvpn_nonvacuous.
